@@ -479,7 +479,10 @@ func VerifC06Binary() {
 		return // regular expressions are exercised on concrete strings in VerifC06Regex
 	}
 	pre := &SymbolTable{(*syms)[0], (*syms)[1]}
+	lc, rc := c06Copy(l), c06Copy(r)
 	res, err := c06BinaryOp(op).Eval(l, r, syms)
+	// evaluation reads its operands: the values bound to the variables of a rule are shared with the facts
+	vAssert(vAnd(c06Same(l, lc), c06Same(r, rc)), "C06.binary.operands-unchanged")
 	vCover("evaluated")
 	if err != nil {
 		vCover("error")
@@ -793,4 +796,35 @@ func VerifC06Stack() {
 	vCover("evaluated")
 	vAssert(err != nil, "C06.stack.error")
 	vAssert(res == nil, "C06.stack.nil")
+}
+
+// c06Copy: an element-wise copy of a set or byte array operand (other terms are values).
+func c06Copy(t Term) Term {
+	switch x := t.(type) {
+	case Set:
+		return append(Set{}, x...)
+	case Bytes:
+		return append(Bytes{}, x...)
+	}
+	return t
+}
+
+// c06Same: same elements in the same positions.
+func c06Same(a, b Term) bool {
+	switch x := a.(type) {
+	case Set:
+		y, ok := b.(Set)
+		if !ok || len(x) != len(y) {
+			return false
+		}
+		r := true
+		for i := range x {
+			r = vAnd(r, refTermEq(x[i], y[i]))
+		}
+		return r
+	case Bytes:
+		y, ok := b.(Bytes)
+		return ok && vBytesEq(x, y)
+	}
+	return true
 }
